@@ -1,25 +1,26 @@
 #!/bin/sh
 # Runs every seeded change through the quick command of the property it breaks (C10: simhist + process facet only,
 # unless MATRIX_FULL=1) and writes seeded/MATRIX.json. Applies each patch to /repo and reverts it afterwards.
-cd /verif || exit 9
+HERE="$(cd "$(dirname "$0")/.." && pwd)"
+cd "$HERE" || exit 9
 export VERIF_NO_MINIMISE=1   # detection only: skip the delta-debugging of every replay
-OUT=/verif/seeded/MATRIX.json
+OUT=$HERE/seeded/MATRIX.json
 echo "[" > $OUT.tmp; FIRST=1
-for d in /verif/seeded/C1*/; do
+for d in $HERE/seeded/C1*/; do
   n=$(basename $d); p=${n%%-*}
   if [ "$p" = "C10" ] && [ "$MATRIX_FULL" != "1" ]; then export VERIF_SKIP=miri; ONLY="VERIF_SKIP_MIRI=1"; else ONLY=""; fi
   START=$(date +%s)
   if [ "$p" = "C10" ] && [ "$MATRIX_FULL" != "1" ]; then
-    VERIF_SKIP_MIRI=1 tools/try_mutant.sh $d/patch.diff $p quick > /tmp/matrix_one.out 2>&1; RC=$?
+    VERIF_SKIP_MIRI=1 tools/try_mutant.sh $d/patch.diff $p quick > /tmp/matrix_one.$$.out 2>&1; RC=$?
   else
-    tools/try_mutant.sh $d/patch.diff $p quick > /tmp/matrix_one.out 2>&1; RC=$?
+    tools/try_mutant.sh $d/patch.diff $p quick > /tmp/matrix_one.$$.out 2>&1; RC=$?
   fi
   END=$(date +%s)
-  CLS=$(grep -o '"class":"[a-z_]*"' /tmp/matrix_one.out | sort | uniq -c | sort -rn | awk '{print $2}' | tr '\n' ' ' | sed 's/"class"://g; s/"//g')
+  CLS=$(grep -o '"class":"[a-z_]*"' /tmp/matrix_one.$$.out | sort | uniq -c | sort -rn | awk '{print $2}' | tr '\n' ' ' | sed 's/"class"://g; s/"//g')
   [ $FIRST = 1 ] || echo "," >> $OUT.tmp; FIRST=0
   printf '{"seeded":"%s","check_exit":%s,"violation_classes":"%s","seconds":%s}' "$n" "$RC" "$CLS" "$((END-START))" >> $OUT.tmp
   echo "$n exit=$RC classes=$CLS"
 done
 echo "]" >> $OUT.tmp; mv $OUT.tmp $OUT
 # the unchanged tree afterwards
-git -C /repo status --short
+git -C "${VERIF_REPO:-/repo}" status --short
